@@ -442,9 +442,50 @@ func genParserSrc(repo, outDir string) {
 	t.locals = map[string]string{}
 	t.stmts(after, "  ", &fin, true)
 
+	// the code before the loop, statement by statement as text (log-free, comments dropped by the printer)
+	var prologue []string
+	for _, s := range fn.Body.List {
+		if _, ok := s.(*ast.LabeledStmt); ok {
+			break
+		}
+		if ifs, ok := s.(*ast.IfStmt); ok {
+			prologue = append(prologue, "if "+squash(src(ifs.Cond))+" {")
+			for _, q := range ifs.Body.List {
+				if sw, ok := q.(*ast.SwitchStmt); ok {
+					prologue = append(prologue, "switch "+squash(src(sw.Tag))+" {")
+					for _, c := range sw.Body.List {
+						cc := c.(*ast.CaseClause)
+						lbl := "default:"
+						if len(cc.List) > 0 {
+							lbl = "case " + squash(src(cc.List[0])) + ":"
+						}
+						prologue = append(prologue, lbl)
+						for _, st := range cc.Body {
+							prologue = append(prologue, squash(src(st)))
+						}
+					}
+					prologue = append(prologue, "}")
+				} else {
+					prologue = append(prologue, squash(src(q)))
+				}
+			}
+			prologue = append(prologue, "}")
+			continue
+		}
+		prologue = append(prologue, squash(src(s)))
+	}
 	var b strings.Builder
 	b.WriteString("import PgBifrost.Model.Parser\n/-! GENERATED by tools/factgen from parselogical/parselogical.go (the loop's switch, the code after the loop). Do not edit. -/\n")
 	b.WriteString("namespace PgBifrost.Gen.ParserSrc\nopen PgBifrost.Parser\n\n")
+	b.WriteString("/-- the statements of `parse` before the loop, as written -/\ndef prologue : List String := [\n")
+	for k, l := range prologue {
+		sep := ","
+		if k == len(prologue)-1 {
+			sep = ""
+		}
+		b.WriteString("  " + leanStr(l) + sep + "\n")
+	}
+	b.WriteString("]\n\n")
 	b.WriteString("/-- the code after the loop -/\ndef finish (p : Bool) (st : St) (res : Res) : Out := Id.run do\n")
 	for _, l := range fin {
 		b.WriteString(l + "\n")
